@@ -90,7 +90,8 @@ Fixpoint be_bytes (k : nat) (n : N) : list N :=
   | S k' => be_bytes k' (n / 256) ++ [n mod 256]
   end.
 
-(* formatNeedleIdCookie: at most NeedleIdSize (8) leading zero bytes are dropped *)
+(* formatNeedleIdCookie (working tree, repaired: `nonzero_index < NeedleIdSize-1`): at most
+   NeedleIdSize-1 = 7 leading zero bytes are dropped, so one key byte is always printed *)
 Fixpoint strip_zero_bytes (fuel : nat) (l : list N) : list N :=
   match fuel, l with
   | S f, 0 :: l' => strip_zero_bytes f l'
@@ -98,7 +99,7 @@ Fixpoint strip_zero_bytes (fuel : nat) (l : list N) : list N :=
   end.
 
 Definition format_key_cookie (key cookie : N) : list N :=
-  flat_map hex_byte (strip_zero_bytes 8 (be_bytes 8 key ++ be_bytes 4 cookie)).
+  flat_map hex_byte (strip_zero_bytes 7 (be_bytes 8 key ++ be_bytes 4 cookie)).
 
 (* FileId.String *)
 Definition format_fid (f : fid) : fidstr :=
@@ -193,10 +194,10 @@ Definition view_chunk (c : chunk) : chunk :=
      c_is_compressed := c_is_compressed c; c_is_manifest := c_is_manifest c |}.
 
 (* ------------------------------------------------------------------------- *)
-(* filer.Attr / filer_pb.FuseAttributes; times at the granularity of the wire
-   format (Unix seconds)                                                      *)
+(* filer.Attr / filer_pb.FuseAttributes.  A time.Time is its Unix() seconds and
+   its Nanosecond() part; the wire format carries the seconds only            *)
 Record attr := {
-  a_mtime : Z; a_crtime : Z; a_mode : N (* os.FileMode, uint32 *); a_uid : N; a_gid : N;
+  a_mtime : Z; a_mtime_ns : N; a_crtime : Z; a_crtime_ns : N; a_mode : N (* os.FileMode, uint32 *); a_uid : N; a_gid : N;
   a_mime : string; a_replication : string; a_collection : string; a_ttl_sec : Z;
   a_disk_type : string; a_user_name : string; a_group_names : list string;
   a_symlink_target : string; a_md5 : bytes; a_file_size : N }.
@@ -218,16 +219,16 @@ Definition attr_to_pb (a : attr) : pb_attr :=
 (* the zero Attr: time.Time{}.Unix() *)
 Definition zero_time : Z := (-62135596800)%Z.
 Definition zero_attr : attr :=
-  {| a_mtime := zero_time; a_crtime := zero_time; a_mode := 0; a_uid := 0; a_gid := 0;
+  {| a_mtime := zero_time; a_mtime_ns := 0; a_crtime := zero_time; a_crtime_ns := 0; a_mode := 0; a_uid := 0; a_gid := 0;
      a_mime := ""; a_replication := ""; a_collection := ""; a_ttl_sec := 0%Z; a_disk_type := "";
      a_user_name := ""; a_group_names := []; a_symlink_target := ""; a_md5 := []; a_file_size := 0 |}.
 
-(* PbToEntryAttribute *)
+(* PbToEntryAttribute: `t.Crtime = time.Unix(attr.Crtime, 0)`, `t.Mtime = time.Unix(attr.Mtime, 0)` *)
 Definition pb_to_attr (o : option pb_attr) : attr :=
   match o with
   | None => zero_attr
   | Some p =>
-      {| a_mtime := p_mtime p; a_crtime := p_crtime p; a_mode := p_file_mode p; a_uid := p_uid p;
+      {| a_mtime := p_mtime p; a_mtime_ns := 0; a_crtime := p_crtime p; a_crtime_ns := 0; a_mode := p_file_mode p; a_uid := p_uid p;
          a_gid := p_gid p; a_mime := p_mime p; a_replication := p_replication p;
          a_collection := p_collection p; a_ttl_sec := p_ttl_sec p; a_disk_type := p_disk_type p;
          a_user_name := p_user_name p; a_group_names := p_group_name p;
@@ -284,7 +285,8 @@ Definition pb_first_byte (m : pb_entry) : option N :=
 Definition octet_stream : string := "application/octet-stream".
 
 Definition set_mime (a : attr) (m : string) : attr :=
-  {| a_mtime := a_mtime a; a_crtime := a_crtime a; a_mode := a_mode a; a_uid := a_uid a; a_gid := a_gid a;
+  {| a_mtime := a_mtime a; a_mtime_ns := a_mtime_ns a; a_crtime := a_crtime a; a_crtime_ns := a_crtime_ns a;
+     a_mode := a_mode a; a_uid := a_uid a; a_gid := a_gid a;
      a_mime := m; a_replication := a_replication a; a_collection := a_collection a;
      a_ttl_sec := a_ttl_sec a; a_disk_type := a_disk_type a; a_user_name := a_user_name a;
      a_group_names := a_group_names a; a_symlink_target := a_symlink_target a; a_md5 := a_md5 a;
@@ -303,8 +305,23 @@ Definition prepare (e : entry) : entry :=
 (* AfterEntryDeserialization(entry.Chunks) *)
 Definition finish (e : entry) : entry := set_attr_chunks e (e_attr e) (map after_chunk (e_chunks e)).
 
-(* what a lookup or a listing returns for an entry that was written as e *)
+(* AfterEntryDeserialization . BeforeEntrySerialization with the Mime rule *)
 Definition canon (e : entry) : entry := finish (prepare e).
+
+(* what the wire format keeps of an entry: whole seconds of Mtime and Crtime *)
+Definition wire_attr (a : attr) : attr :=
+  {| a_mtime := a_mtime a; a_mtime_ns := 0; a_crtime := a_crtime a; a_crtime_ns := 0;
+     a_mode := a_mode a; a_uid := a_uid a; a_gid := a_gid a;
+     a_mime := a_mime a; a_replication := a_replication a; a_collection := a_collection a;
+     a_ttl_sec := a_ttl_sec a; a_disk_type := a_disk_type a; a_user_name := a_user_name a;
+     a_group_names := a_group_names a; a_symlink_target := a_symlink_target a; a_md5 := a_md5 a;
+     a_file_size := a_file_size a |}.
+Definition wire (e : entry) : entry := set_attr_chunks e (wire_attr (e_attr e)) (e_chunks e).
+
+(* what a lookup (FilerStoreWrapper.FindEntry) or a wrapper listing returns for an
+   entry that was written as e; the embedded stores' own prefixed listing (the
+   filer's production listing path) returns [wire (prepare e)] *)
+Definition read_back (e : entry) : entry := wire (canon e).
 
 (* the reader's view of an entry: file ids through GetFileIdString *)
 Definition view (e : entry) : entry := set_attr_chunks e (e_attr e) (map view_chunk (e_chunks e)).
@@ -317,6 +334,24 @@ Definition fidstr_canonical (s : fidstr) : bool := bytes_eqb (canon_str s) s.
 
 Definition chunk_canonical (c : chunk) : bool :=
   fidstr_canonical (c_file_id c) && fidstr_canonical (c_source_file_id c).
+
+(* ------------------------------------------------------------------------- *)
+(* byte order of names (bytes.Compare on the key bytes after the common prefix) *)
+Fixpoint str_leb (a b : string) : bool :=
+  match a, b with
+  | EmptyString, _ => true
+  | String _ _, EmptyString => false
+  | String x a', String y b' =>
+      let nx := N_of_ascii x in let ny := N_of_ascii y in
+      if nx <? ny then true else if ny <? nx then false else str_leb a' b'
+  end.
+
+(* insertion into an ascending list without duplicates *)
+Fixpoint insert_name (n : string) (l : list string) : list string :=
+  match l with
+  | [] => [n]
+  | m :: l' => if String.eqb n m then l else if str_leb n m then n :: l else m :: insert_name n l'
+  end.
 
 (* ------------------------------------------------------------------------- *)
 (* the store                                                                  *)
@@ -437,17 +472,52 @@ Definition wrapper_find (st : state) (p : path) : sres entry :=
   | SErr => SErr
   end.
 
-(* FilerStoreWrapper.ListDirectoryEntries: the entries of one directory (in the
-   model's order, the store's is by key); None marks a value that fails to decode *)
-Definition wrapper_list (st : state) (dir : string) : list (string * option entry) :=
-  flat_map (fun kv =>
-    if String.eqb (fst (fst kv)) dir then
-      [(snd (fst kv),
-        match decode_entry (maybe_decompress (snd kv)) with
-        | Some e => Some (finish (maybe_read_hard_link st e))
-        | None => None
-        end)]
-    else []) (st_entries st).
+(* ---- listing ---- *)
+(* the names stored under one directory, in the order of the association list *)
+Definition names_in (st : state) (dir : string) : list string :=
+  flat_map (fun kv => if String.eqb (fst (fst kv)) dir then [snd (fst kv)] else []) (st_entries st).
+
+(* leveldb iterates in ascending key order; all keys of one directory share a
+   prefix (dir 0x00 / md5(dir)), so the order is the byte order of the names *)
+Definition sort_names (l : list string) : list string := fold_right insert_name [] l.
+
+(* LevelDB{,2,3}Store.ListDirectoryPrefixedEntries, which names are visited:
+   `bytes.HasPrefix(key, directoryPrefix)`; the iterator starts at startFileName when
+   `startFileName != "" && startFileName >= prefix` (otherwise every name of the
+   prefix range is above startFileName anyway); `fileName == startFileName &&
+   !includeStartFile` is skipped *)
+Definition list_filter (start : string) (incl : bool) (pfx : string) (n : string) : bool :=
+  String.prefix pfx n && str_leb start n && (incl || negb (String.eqb n start)).
+
+(* all of them, before `limit--; if limit < 0 { break }`; None marks a value that
+   fails to decode (the real loop stops there with an error) *)
+Definition store_list_all (st : state) (dir start : string) (incl : bool) (pfx : string)
+  : list (string * option entry) :=
+  map (fun n => (n, match aget path_eqb (dir, n) (st_entries st) with
+                    | Some b => decode_entry (maybe_decompress b)
+                    | None => None
+                    end))
+      (filter (list_filter start incl pfx) (sort_names (names_in st dir))).
+
+Definition store_list (st : state) (dir start : string) (incl : bool) (limit : nat) (pfx : string) :=
+  firstn limit (store_list_all st dir start incl pfx).
+
+(* FilerStoreWrapper.ListDirectoryEntries: the callback is wrapped with
+   maybeReadHardLink and AfterEntryDeserialization *)
+Definition decorate (st : state) (ne : string * option entry) : string * option entry :=
+  (fst ne, match snd ne with Some e => Some (finish (maybe_read_hard_link st e)) | None => None end).
+Definition wrapper_list_all (st : state) (dir start : string) (incl : bool) :=
+  map (decorate st) (store_list_all st dir start incl "").
+Definition wrapper_list (st : state) (dir start : string) (incl : bool) (limit : nat) :=
+  firstn limit (wrapper_list_all st dir start incl).
+
+(* FilerStoreWrapper.ListDirectoryPrefixedEntries on leveldb / leveldb2 / leveldb3 (they
+   implement the prefixed listing themselves, so the ErrUnsupportedListDirectoryPrefixed
+   fallback is not taken): the caller's callback goes to the store UNWRAPPED -- no
+   maybeReadHardLink, no AfterEntryDeserialization.  This is the path of
+   Filer.doListDirectoryEntries. *)
+Definition wrapper_list_prefixed (st : state) (dir start : string) (incl : bool) (limit : nat) (pfx : string) :=
+  store_list st dir start incl limit pfx.
 End Store.
 Arguments codec : clear implicits.
 Arguments state : clear implicits.
@@ -480,8 +550,8 @@ Definition s2b (s : string) : list N := map N_of_ascii (list_ascii_of_string s).
 (* known findings of C24 (decidable triggers)                                 *)
 (* 0: Mime "application/octet-stream" is stored as "" *)
 Definition trigger_octet (e : entry) : bool := String.eqb (a_mime (e_attr e)) octet_stream.
-(* 1: a file id with needle key 0 is rewritten to a string that does not parse *)
-Definition str_key_zero (s : fidstr) : bool :=
-  match parse_fid s with Some f => f_key f =? 0 | None => false end.
-Definition trigger_key_zero (e : entry) : bool :=
-  existsb (fun c => str_key_zero (c_file_id c) || str_key_zero (c_source_file_id c)) (e_chunks e).
+(* 2: the sub-second part of Mtime / Crtime is not stored *)
+Definition trigger_subsec (e : entry) : bool :=
+  negb (a_mtime_ns (e_attr e) =? 0) || negb (a_crtime_ns (e_attr e) =? 0).
+(* (former finding 1, a file id with needle key 0 rewritten to a string that does not parse, is
+   repaired in the working tree: see format_key_cookie; trigger number 1 is retired) *)
